@@ -300,6 +300,7 @@ def run(ctx, chk, tier="quick"):
                             "no write of a step after a commit point of the same step",
                             key="%s|%s|boundary:%s->write:%s" % (f.module.relpath, f.qualname, bdesc, wdesc),
                             why="a kill between that commit and the later write leaves a mixture in the file",
+                            local=True,      # the write / commit summaries of every callee, new ones included, were computed from their bodies
                         )
             # passing obligations: one per boundary that has no later write
             for b in bnodes:
